@@ -54,6 +54,20 @@ def compare_class(ctx, cls, rule="C05.R2", need_sizeof=True):
     szset = {a for g, a, p in sz}
     for side, f, rows in (("parse", fp, pr), ("build", fb, br)):
         good = [(g, a, p) for g, a, p in rows if a not in MARKERS and not is_top(a)]
+        # a path that swallowed a sub-construct's failure and returns normally leaves the stream wherever the failure happened,
+        # unless it restores a recorded position; only the documented early stop (StopFieldError) may do that
+        lost = {}
+        for g, a, p in rows:
+            if not is_top(a):
+                continue
+            sw = [e for e in p.events if e.kind == "CATCH" and not e.depth and any(x.kind == "ENDCATCH" and x["tid"] == e["tid"] and x["handler"] == e["handler"] for x in p.events)]
+            for e in sw:
+                if tuple(e["types"]) != ("StopFieldError",):
+                    lost[id(e.node)] = e
+        for e in lost.values():
+            n += 1
+            ctx.ob(rule, f, False, "%s.%s swallows %s from a sub-construct and returns with the stream left where the failure happened, while _sizeof answers %s" % (
+                cls, f.name, "/".join(e["types"]), " / ".join(sorted(N.show(s) for s in szset)) or "nothing"), key="%s %s position lost after %s" % (cls, side, "/".join(e["types"])), node=e.node)
         if not good:
             ctx.ob(rule, f, False, "%s.%s: no path with a decidable net amount" % (cls, f.name), key="%s %s undecidable" % (cls, side))
             n += 1
